@@ -200,6 +200,12 @@ func (r *Run) Finish() int {
 	os.MkdirAll(evDir, 0o755)
 	os.MkdirAll(filepath.Join(vd, "replay"), 0o755)
 
+	// witnesses of earlier runs of this property are stale
+	if old, _ := filepath.Glob(filepath.Join(vd, "replay", r.ID+"-*.json")); len(old) > 0 {
+		for _, f := range old {
+			os.Remove(f)
+		}
+	}
 	exit := 0
 	// known findings
 	keys := make([]string, 0, len(r.known))
